@@ -122,6 +122,9 @@ def check(case, ctx):
     U1, U2 = O.ro(U1), O.ro(U2)
     R = np.asarray(symmetry.rotations(k), float)
     P = np.asarray(symmetry.permutations(k), float)
+    if R.shape != (N, 3, 3) or P.shape != (N, 3, 3):
+        ctx.fail("order/%d" % k, "system %d: rotations() has shape %r and permutations() %r, expected %d operators" % (k, R.shape, P.shape, N))
+        return
     j, kk = case["j"] % N, case["k"] % N
     a, b, c = case["abc"]
     cell = conf_cell(k, a, b, c, *case["ang"])
